@@ -77,6 +77,7 @@ class Connection(object):
     self.dead = False           # no more bytes will flow in either direction
     self.client_closed = False
     self.silent = False         # inbound dropped, nothing ever sent back
+    self.was_silent = False     # sticky
     self.s2c = []               # FIFO of pending deliveries to the client
     self.c2s = []               # FIFO of pending deliveries to the server
     self._s2c_due = 0.0
@@ -104,13 +105,17 @@ class Connection(object):
     item = self.s2c.pop(0)
     if self.client_closed:
       return
-    self.sock._deliver(item)
+    self.sock._deliver(item[:2])
+    if len(item) > 2 and not self.sock.closed:
+      item[2].delivered_at = CLOCK.now      # last byte of this reply is in the client's socket buffer
 
-  def server_send(self, data, delay=0.0):
+  def server_send(self, data, delay=0.0, req=None):
     if self.dead or self.silent or not data:
       return
-    for chunk in self.net.chunks(data):
-      self._push_s2c(('data', bytes(chunk)), delay)
+    chunks = [bytes(c) for c in self.net.chunks(data)]
+    for k, chunk in enumerate(chunks):
+      last = req is not None and k == len(chunks) - 1
+      self._push_s2c(('data', chunk, req) if last else ('data', chunk), delay)
 
   def server_send_at(self, data, when):
     """Deliver (chunked, in order) at exactly `when` (no latency added)."""
@@ -141,6 +146,7 @@ class Connection(object):
                            kind='net.rst')
 
   def go_silent(self):
+    self.was_silent = True
     if not self.silent:
       self.silent = True
       self.s2c = []
